@@ -54,6 +54,41 @@ pub fn run<W: Write>(args: &[String], out: &mut W) {
     let lo: u64 = args[3].parse().unwrap();
     let hi: u64 = args[4].parse().unwrap();
     let verbose = args.get(5).map(|s| s == "verbose").unwrap_or(false);
+    if mode == "panics" {
+        // implementation-only family: report every input on which the crate panics
+        // (with hooks on this includes the UTF-8 assertion in next_nstr)
+        let mut n = 0u64;
+        for idx in lo..hi {
+            let s = wrap(wrapk, &decode(&alpha, idx));
+            let progs = [
+                s.clone(),
+                format!("package p; var _ = {}", s),
+                format!("package p; func f() {{ {} }}", s),
+            ];
+            for (k, p) in progs.iter().enumerate() {
+                let line = guarded(|| {
+                    if k == 0 {
+                        lex::token_line(p)
+                    } else {
+                        let r = gosyn::parse_source(p);
+                        match r {
+                            Ok(f) => {
+                                let _ = format!("{:?}", f);
+                                "OK".to_string()
+                            }
+                            Err(e) => e.to_string(),
+                        }
+                    }
+                });
+                if line.starts_with("PANIC") {
+                    writeln!(out, "{} {} {}", idx, k, line).unwrap();
+                }
+                n += 1;
+            }
+        }
+        writeln!(out, "DONE {}", n).unwrap();
+        return;
+    }
     let mut h = FNV0;
     let mut block_start = lo;
     for idx in lo..hi {
